@@ -172,6 +172,22 @@ def run(ctx):
                     rv = graph.definition.revert_path(pth)
                     if len(rv) != len(pth) or G.run_path(gd, end, rv) != tuple(q):
                         ctx.violation("property_fails", "revert_path does not lead back", {"graph": gd, "path": pth, "state": q, "finder": "revert"}, True)
+            # a modified copy with OTHER generators (the same ones in reversed order), taken AFTER this object answered path queries: it must restore paths with
+            # ITS generators, not with anything cached on the object it was copied from
+            if gd["kind"] == "perm" and len(gd["gens"]) >= 2 and len(coq_cases) % 4 == 1:
+                from cayleypy import CayleyGraphDef
+                gd_r = dict(gd, gens=list(reversed(gd["gens"])))
+                gcopy = graph.modified_copy(CayleyGraphDef.create([list(p_) for p_ in gd_r["gens"]], central_state=list(gd["central"])))
+                ball_r = gcopy.bfs(max_diameter=max(1, min(D, 3)), return_all_hashes=True)
+                Dr = len(ball_r.layer_sizes) - 1
+                for q in [list(rng.choice(sorted(dist))) for _ in range(3)]:
+                    r, _ = P.res_path_lit(lambda: gcopy.find_path_to(list(q), ball_r))
+                    ctx.count("queries_on_copy_with_other_generators")
+                    msg = check_to(gd_r, dist, Dr, q, r, tuple(gd["central"]))
+                    if msg:
+                        ctx.violation("property_fails", "on a modified copy with the generators in another order, taken after path queries on the source: " + msg,
+                                      {"graph": gd_r, "config": cfgd, "depth": Dr, "cut": ["diameter", Dr], "query": q, "finder": "to", "derived": "modified_copy_other_generators"}, True)
+                        break
             # query states that are not states of the graph at all: a symbol just outside the code alphabet (2^w exactly, 2^w + 1, max + 1).  The answer must be
             # "no path" or a refusal - never a generator sequence (oracle only: the model's states are in range by construction)
             if gd["kind"] == "perm":
